@@ -182,7 +182,7 @@ def r20_1(ctx, u) -> None:
 
 def _window(ctx, u, cfg, name: Optional[str], grown: ast.AST, n: Node) -> Tuple[bool, str]:
     """Structural justification of a bounded window."""
-    short = u.short
+    short = ctx.pkg.canonical(u)
     if short == "itertools.batched" and name is not None:
         # cleared at the start of every batch and filled by a range(n)-bounded loop
         fill_loops = [a for (k, a) in n.regions if k == "loop" and isinstance(a, ast.For)
